@@ -74,11 +74,11 @@ Proof. reflexivity. Qed.
 (* ibb: Listen, an acceptor, Listener.Close, then <open/> on a session with a full local address *)
 Example ex_ibb_after_close : ibb_iq gen_facts stale_env open_start = [COk; CErr].
 Proof. vm_compute. reflexivity. Qed.
-Example ex_ibb_key_mismatch : ibb_iq (mkfacts false true true true) stale_env open_start = [CPanic; COk; CErr].
+Example ex_ibb_key_mismatch : ibb_iq (mkfacts false true true true true) stale_env open_start = [CPanic; COk; CErr].
 Proof. vm_compute. reflexivity. Qed.
 (* the same mismatch is harmless on a bare local address *)
 Example ex_ibb_key_mismatch_bare :
-  ibb_iq (mkfacts false true true true) (mkenv [] true (str "set") true false [ALListen; ALAcceptor; ALClose] false) open_start = [COk; CErr].
+  ibb_iq (mkfacts false true true true true) (mkenv [] true (str "set") true false [ALListen; ALAcceptor; ALClose] false) open_start = [COk; CErr].
 Proof. vm_compute. reflexivity. Qed.
 (* a listener nobody accepts from *)
 Example ex_ibb_unserved : ibb_iq gen_facts (mkenv [] true (str "set") true true [ALListen] false) open_start = [CBlocked; COk; CErr].
@@ -86,11 +86,11 @@ Proof. vm_compute. reflexivity. Qed.
 (* muc: joined, removed, joined again, removed again *)
 Example ex_muc_second_departure : muc_presence gen_facts depart_env = [COk; CErr].
 Proof. vm_compute. reflexivity. Qed.
-Example ex_muc_plain_send : muc_presence (mkfacts true false true true) depart_env = [CBlocked; COk; CErr].
+Example ex_muc_plain_send : muc_presence (mkfacts true false true true true) depart_env = [CBlocked; COk; CErr].
 Proof. vm_compute. reflexivity. Qed.
 (* a Leave in between drains the slot *)
 Example ex_muc_leave_drains :
-  muc_presence (mkfacts true false true true) (mkenv [] true (str "unavailable") true true [AMJoin; AMDepart; AMLeave; AMJoin] false) = [COk; CErr].
+  muc_presence (mkfacts true false true true true) (mkenv [] true (str "unavailable") true true [AMJoin; AMDepart; AMLeave; AMJoin] false) = [COk; CErr].
 Proof. vm_compute. reflexivity. Qed.
 Example ex_served : listener_served gen_facts (mkenv [] true [] true true [ALListen; ALAcceptor] false) = true.
 Proof. vm_compute. reflexivity. Qed.
@@ -98,7 +98,7 @@ Proof. vm_compute. reflexivity. Qed.
 (* ibb: Expect taken over by a second call for the same session, nobody in Accept, then the <open/> *)
 Example ex_takeover_delivered : ibb_iq gen_facts takeover_env open_start = [COk; CErr].
 Proof. vm_compute. reflexivity. Qed.
-Example ex_takeover_lost : ibb_iq (mkfacts true true false true) takeover_env open_start = [CBlocked; COk; CErr].
+Example ex_takeover_lost : ibb_iq (mkfacts true true false true true) takeover_env open_start = [CBlocked; COk; CErr].
 Proof. vm_compute. reflexivity. Qed.
 Example ex_takeover_live : expect_live (e_hist takeover_env) = true /\ e_match takeover_env = true.
 Proof. split; reflexivity. Qed.
@@ -110,5 +110,11 @@ Proof. vm_compute. reflexivity. Qed.
 Example ex_receipt_repeated : receipts_handle gen_facts rcpt_env rcpt_msg = [COk; CErr].
 Proof. vm_compute. reflexivity. Qed.
 Example ex_receipt_repeated_no_delete :
-  receipts_handle (mkfacts true true true false) rcpt_env rcpt_msg = [CBlocked; COk; CErr].
+  receipts_handle (mkfacts true true true false true) rcpt_env rcpt_msg = [CBlocked; COk; CErr].
+Proof. vm_compute. reflexivity. Qed.
+
+(* ibb: <close/> while a local Write on the acknowledged stream waits for its ack *)
+Example ex_close_while_writing : ibb_iq gen_facts writing_env close_start = [COk; CErr].
+Proof. vm_compute. reflexivity. Qed.
+Example ex_close_waits_for_writer : ibb_iq (mkfacts true true true true false) writing_env close_start = [CBlocked; COk; CErr].
 Proof. vm_compute. reflexivity. Qed.
